@@ -880,7 +880,11 @@ func main() {
 		idx := run.Add(common.App("CaseW", "[]", "[]", "(mkObs false None [] (0, 0))"), descr, false)
 		run.Hist("goside_many_entries")
 		if bad != "" {
-			run.Violate(idx, "last-writer-wins after reload", "block_entries>=65536", bad)
+			sig := "block_entries>=65536"
+			if !okAll || o.loadErr != "" {
+				sig = "file_unloadable_after_acknowledged_writes"
+			}
+			run.Violate(idx, "last-writer-wins after reload", sig, bad)
 		}
 		os.RemoveAll(dir)
 	}
